@@ -40,7 +40,9 @@ AStore == \E k \in AllKeys :
               /\ UNCHANGED frozen
 AUserSet == \E k \in AllKeys : data' = data \cup {k} /\ UNCHANGED <<aged, frozen, recent>>
 AFreeze  == frozen' = frozen \cup data /\ UNCHANGED <<data, aged, recent>>
-ANext == ATouch \/ AStore \/ AUserSet \/ AFreeze
+(* load_data: a set of entries is assigned, then everything cached is frozen *)
+ALoad    == \E S \in SUBSET AllKeys : data' = data \cup S /\ frozen' = frozen \cup data' /\ UNCHANGED <<aged, recent>>
+ANext == ATouch \/ AStore \/ AUserSet \/ AFreeze \/ ALoad
 ASpec == AInit /\ [][ANext]_avars
 
 TypeOK == data \in SUBSET AllKeys /\ aged \in SUBSET AllKeys /\ frozen \in SUBSET AllKeys /\ recent \in SUBSET AllKeys
